@@ -124,8 +124,8 @@ EditsOk(t) ==
   t.edits = <<>> \/
   LET st0 == [name |-> t.name, nameraw |-> t.nameraw, attrs |-> NV(t.attrs)]
       post == [name |-> t.post.name, nameraw |-> t.post.nameraw, attrs |-> NV(t.post.attrs)]
-  IN \* with duplicate attributes in the source, removing "the" attribute may mean the first or all of them
-     post = ApplyEdits(st0, t.edits, 1, FALSE) \/ post = ApplyEdits(st0, t.edits, 1, TRUE)
+  IN \* after remove_attribute(n) a read must not find n any more: with duplicate attributes in the source all of them go
+     post = ApplyEdits(st0, t.edits, 1, TRUE)
 
 \* ---- C14 (c): order ------------------------------------------------------------------------------
 \* (one end tag may close several elements: each of their end-tag handlers sees the same range)
